@@ -346,7 +346,7 @@ impl Check for C01 {
             return ExtraResult::default();
         }
         // coverage-guided search over the same scenario space with the same oracle (harness/fuzz, target pair_oracles)
-        crate::props::pairfuzz::pair_fuzz_extra("C01", seed, 400_000, &|sc| self.run(&Case::Pair(sc.clone())), &|sc| serde_json::to_value(Case::Pair(sc.clone())).unwrap_or_default())
+        crate::props::pairfuzz::pair_fuzz_extra("C01", seed, 600_000, &|sc| self.run(&Case::Pair(sc.clone())), &|sc| serde_json::to_value(Case::Pair(sc.clone())).unwrap_or_default())
     }
 
     fn cases(&self, tier: Tier) -> u64 {
